@@ -13,6 +13,7 @@ import z3
 from sx import shims
 from sx.shims import STUBS as _BASE_STUBS
 from .layout import LayoutShape
+from . import refasm
 from .instr import InstrShape
 from . import c02, c06, c16, c17, isa_templates
 
@@ -158,6 +159,19 @@ def shapes(tier, seed):
             src.append(c16.PrettyShape(f'{fmt}:several-files', prog=files,
                                        cfgargs=dict(origin=0x100, consts={'v2': c02.SYMS['v2']}, data_blocks=[('blk', 0x118, 2, 0x5A)]),
                                        props=['C16'], binary=True, start=0x100, pretty=fmt, width=48))
+    # one include directory named under two spellings: which spelling comes last must not show in any output
+    for nm, dirs in {'dot-slash': ['lib', './lib'], 'symbolic-link': ['lib', 'lib2'], 'round-trip': ['lib/../lib', 'lib'],
+                     'three-spellings': ['./lib', 'lib2', 'lib']}.items():
+        progA = {'main.asm': [('data', '.byte', [C(1)]), ('include', 'inc.asm'), ('label', 'b'), ('data', '.2byte', [('lbl', 'b'), ('lbl', 'i')])],
+                 'inc.asm': [('label', 'i'), ('instr', 'ld8', ('lsb', V('v2'))), ('instr', 'nop', None)]}
+        rendered = refasm.render_program(progA)
+        phys = {'main.asm': rendered['main.asm'], 'lib/inc.asm': rendered['inc.asm']}
+        if 'lib2' in dirs:
+            phys['lib2'] = 'SYMLINK:lib'
+        for fmt in ('listing', 'hex'):
+            src.append(c16.PrettyShape(f'{fmt}:one-directory-two-spellings:{nm}', prog=progA, files=phys, include_dirs=dirs,
+                                       cfgargs=dict(origin=0x100, consts={'v2': c02.SYMS['v2']}),
+                                       props=['C16'], binary=True, start=0x100, pretty=fmt, width=48))
     # mnemonics that contain one another (`mov.b`, `mov`, `b`): which one a statement is must not depend on any order
     from .instr import isa, code
     # (`b.mov` next to `b` and `mov` is left out: with several statements allowed on one line it reads as `b.` `mov`)
@@ -172,6 +186,6 @@ def shapes(tier, seed):
         if d is not None:
             out.append(d)
     # the shapes written for this property first (cheap and the most telling), the borrowed ones after them
-    own = ('preprocessor-symbols', 'mnemonics-containing', 'several-files', 'rej:')
+    own = ('preprocessor-symbols', 'mnemonics-containing', 'several-files', 'two-spellings', 'rej:')
     out.sort(key=lambda sh: 0 if any(k in sh.sid for k in own) else 1)
     return out
